@@ -239,13 +239,9 @@ pub fn explore_scenario(
         let v = monitor(scn, &ct);
         stats.premises += crate::mon::take_premises();
         if !v.is_empty() {
-            // replay twice: a violation must reproduce identically before it is reported
-            let (r2, d2) = run_schedule(scn, &chosen);
-            let (r3, d3) = run_schedule(scn, &chosen);
-            let same = !d2
-                && !d3
-                && hash_trace(&canon(&r2.trace, &r2.raw_ids)) == h
-                && hash_trace(&canon(&r3.trace, &r3.raw_ids)) == h;
+            // replay twice, each time in a fresh process (process-wide statics of rsactor may have been damaged
+            // by the very defect that is being reported): a violation must reproduce identically before it is reported
+            let same = fresh_replay_hash(scn, &chosen) == Some(h) && fresh_replay_hash(scn, &chosen) == Some(h);
             found = Some(Found {
                 scenario: (**scn).clone(),
                 schedule: chosen,
@@ -433,7 +429,7 @@ pub fn feature_neutral(t: &[Ev]) -> Vec<Ev> {
     let mut hidden: HashSet<u32> = HashSet::new();
     t.iter()
         .filter(|e| match &e.k {
-            EvK::Log { .. } | EvK::DlCount { .. } | EvK::Graph { .. } | EvK::Quiet { .. } => false,
+            EvK::Log { .. } | EvK::DlCount { .. } | EvK::Graph { .. } | EvK::Quiet { .. } | EvK::LockPoisoned { .. } => false,
             EvK::OpStart { op, k: OpK::Metrics, .. } => {
                 hidden.insert(*op);
                 false
@@ -443,4 +439,17 @@ pub fn feature_neutral(t: &[Ev]) -> Vec<Ev> {
         })
         .cloned()
         .collect()
+}
+
+/// Hash of the canonical trace of (scenario, schedule), computed by a fresh child process of this binary.
+pub fn fresh_replay_hash(scn: &Arc<Scenario>, schedule: &[u16]) -> Option<u64> {
+    let exe = std::env::current_exe().ok()?;
+    let dir = std::env::temp_dir();
+    let file = dir.join(format!("rsv-replay-{}-{:x}.json", std::process::id(), hash_trace(&[]) ^ schedule.len() as u64 ^ (scn.name.len() as u64) << 8));
+    let body = serde_json::json!({"scenario": **scn, "schedule": schedule});
+    std::fs::write(&file, serde_json::to_string(&body).ok()?).ok()?;
+    let out = std::process::Command::new(exe).arg("hash-replay").arg(&file).output().ok()?;
+    let _ = std::fs::remove_file(&file);
+    let text = String::from_utf8_lossy(&out.stdout);
+    text.lines().find_map(|l| l.strip_prefix("HASH ").and_then(|h| u64::from_str_radix(h.trim(), 16).ok()))
 }
